@@ -1,6 +1,7 @@
 """C15 -- a server that stops mid-conversation never hangs or spins the
-client.  EOF-progress rule over every stream-reading loop, delivery only
-after a complete frame, loop-free error path, EOF-preserving wrappers,
+client.  EOF-progress rule over every stream-reading loop (on the loop
+summaries of vp.pathsum), delivery only after a complete frame (linear loop
+invariant, vp.reassembly), loop-free error path, EOF-preserving wrappers,
 EOFError-only status fallback."""
 import ast
 
@@ -8,9 +9,11 @@ from ..common import AnalysisError, rel
 from ..callgraph import CallGraph
 from ..connmodel import ConnModel, CONN
 from ..cfg import cfg_of
-from .. import shared
+from .. import shared, pathsum, reassembly
+from ..pathsum import struct, show, is_const, subterms
 
 BASIC = 'minecraft.networking.types.basic'
+BUFFER = 'minecraft.networking.packets.packet_buffer'
 
 
 def raw_reads(db, cg, fi, type_ci, packet_ci):
@@ -44,29 +47,61 @@ def raw_reads(db, cg, fi, type_ci, packet_ci):
 def run(report, db, tier):
     report.explanation = (
         'After the peer closes, a read returns b"" forever.  Every loop that '
-        'reads from a stream must therefore either test that read for '
-        'emptiness on every iteration and leave the loop, or be bounded by '
-        'a counter; packets are delivered only past the reassembly '
-        'condition; the error path is loop-free.')
+        'reads from a stream is summarised by one symbolic iteration: an '
+        'iteration may only go on when its decisions say the chunk read was '
+        'not empty, and an empty chunk must leave the loop (or the loop is '
+        'a bounded for).  For the frame reader a linear loop invariant shows '
+        'that the loop runs exactly while fewer bytes than the length '
+        'prefix have been appended, so packets are decoded only from whole '
+        'frames; the error path is loop-free.')
     cg = CallGraph(db)
     M = ConnModel(db, cg)
+    S = shared.summariser(db, cg)
     type_ci = db.get_class(BASIC, 'Type')
     packet_ci = db.get_class('minecraft.networking.packets.packet', 'Packet')
-    r1(report, db, cg, type_ci, packet_ci)
-    r2(report, db, cg, M)
+    r1(report, db, cg, S, type_ci, packet_ci)
+    r2(report, db, cg, S, M, type_ci, packet_ci)
     r3(report, db, cg, M, type_ci, packet_ci)
     R4 = report.rule('R15.4', 'cipher wrappers are single pass-through '
                      'updates: an empty read stays empty')
     shared.wrapper_passthrough(report, R4, db)
     R5 = report.rule('R15.5', 'status-phase fallback: exactly EOFError, '
                      'close immediately, default version, handled')
-    shared.eof_fallback(report, R5, db, cg)
+    shared.eof_fallback_ps(report, R5, db, S)
 
 
-def r1(report, db, cg, type_ci, packet_ci):
-    R = report.rule('R15.1', 'EOF progress: every loop containing a stream '
-                    'read tests that read for emptiness each iteration and '
-                    'leaves the loop, or is bounded by a counter')
+def loop_events(paths):
+    """every loop event of the summaries, nested ones included, once per
+    syntactic loop"""
+    out = {}
+
+    def rec(evs):
+        for e in evs:
+            if e.kind == 'loop':
+                out.setdefault(id(e.node), e)
+                for q in e.paths:
+                    rec(q.events)
+    for p in paths:
+        rec(p.events)
+    return list(out.values())
+
+
+def bounded(loop_node):
+    """a `for` over range(...) / a literal runs a bounded number of times"""
+    if not isinstance(loop_node, ast.For):
+        return False
+    it = loop_node.iter
+    if isinstance(it, ast.Call) and isinstance(it.func, ast.Name) and \
+            it.func.id in ('range', 'xrange'):
+        return True
+    return isinstance(it, (ast.Tuple, ast.List, ast.Constant))
+
+
+def r1(report, db, cg, S, type_ci, packet_ci):
+    R = report.rule('R15.1', 'EOF progress: in every loop containing a '
+                    'stream read, an iteration goes on only when the chunk '
+                    'read is known to be non-empty and an empty chunk '
+                    'leaves the loop -- or the loop is bounded by a counter')
     n_loops = 0
     for fi in db.funcs:
         if isinstance(fi.node, ast.Lambda):
@@ -74,205 +109,138 @@ def r1(report, db, cg, type_ci, packet_ci):
         reads = raw_reads(db, cg, fi, type_ci, packet_ci)
         if not reads:
             continue
-        loops = [n for n in ast.walk(fi.node) if isinstance(n, ast.While)]
-        for loop in loops:
-            inside = [r for r in reads if any(r is x for st in loop.body
-                                              for x in ast.walk(st))]
-            if not inside:
+        if not any(isinstance(n, (ast.While, ast.For))
+                   for n in ast.walk(fi.node)):
+            continue
+        raw = set(id(r) for r in reads)
+        try:
+            paths = S.run(fi)
+        except AnalysisError:
+            raise
+        for lp in loop_events(paths):
+            body_reads = [(q, e) for q in lp.paths
+                          for e in q.events if e.kind == 'call'
+                          and id(e.node) in raw]
+            if not body_reads:
                 continue
             n_loops += 1
-            g = cfg_of(fi)
-            body = set(g.loop_nodes(loop))
-            for r in inside:
-                verdict = eof_progress(fi, g, loop, body, r)
-                if verdict is True:
-                    report.ok(R, '%s line %d: %s' % (fi.qualname, r.lineno,
-                                                     ast.unparse(r)[:60]))
-                else:
-                    report.violation(
-                        R, 'eof-progress:%s' % fi.qualname, fi.path, r,
-                        fi.qualname, 'the loop at line %d reads with %s but '
-                        '%s: after the peer closes, every read returns b"" '
-                        'and the loop spins forever' % (
-                            loop.lineno, ast.unparse(r)[:60], verdict))
+            if bounded(lp.node):
+                report.ok(R, '%s line %d: bounded for loop' % (
+                    fi.qualname, lp.node.lineno))
+                continue
+            verdict = None
+            for q, e in body_reads:
+                chunk = e.res
+                nonempty = None
+                for a, pol, _ in q.conds:
+                    if a[1] == 'truth' and a[2][0] == chunk:
+                        nonempty = pol
+                goes_on = q.outcome[0] in ('fall', 'continue')
+                if goes_on and nonempty is None:
+                    verdict = (e, 'an iteration goes on without the chunk '
+                               'read having been tested for emptiness '
+                               '(decisions: [%s])' % q.cond_text())
+                elif goes_on and nonempty is False:
+                    verdict = (e, 'an iteration goes on although the chunk '
+                               'read is empty')
+            if verdict is None:
+                report.ok(R, '%s line %d: %s' % (
+                    fi.qualname, lp.node.lineno,
+                    show(body_reads[0][1].fn)[:60]))
+            else:
+                e, why = verdict
+                report.violation(
+                    R, 'eof-progress:%s' % fi.qualname, fi.path, e.node,
+                    fi.qualname, 'the loop at line %d reads with %s but %s: '
+                    'after the peer closes, every read returns b"" and the '
+                    'loop spins forever' % (lp.node.lineno, show(e.fn)[:60],
+                                            why))
     report.note('stream-reading loops', n_loops)
-    report.floor('stream-reading while loops', n_loops, 2)
+    report.floor('stream-reading loops', n_loops, 2)
 
 
-def eof_progress(fi, g, loop, body, read):
-    """True, or the reason the loop can spin at end of stream."""
-    par = {}
-    for n in ast.walk(loop):
-        for c in ast.iter_child_nodes(n):
-            par[id(c)] = n
-    p = par.get(id(read))
-    var = None
-    if isinstance(p, ast.Assign) and len(p.targets) == 1 and \
-            isinstance(p.targets[0], ast.Name) and p.value is read:
-        var = p.targets[0].id
-    if var is None:
-        return 'its result is consumed without being bound to a name that ' \
-               'could be tested for emptiness'
-    rnodes = [n for n in body if n.ast is p]
-    if not rnodes:
-        return 'the read is not on the loop\'s control-flow graph'
-    rn = rnodes[0]
-    # an emptiness test of var inside the loop, reached on every path from
-    # the read back to the loop head, whose empty arm leaves the loop
-    heads = [n for n in g.nodes if n.kind == 'test' and n.note is loop]
-    head = heads[0]
-    tests = []
-    for n in body:
-        if n.kind != 'test':
-            continue
-        m, empty_true = shared.is_empty_test(n.ast, var)
-        if not m:
-            continue
-        lab = 'true' if empty_true else 'false'
-        outs = [s for s, l in n.succ if l == lab]
-        if outs and all(leaves_loop(g, s, body, head) for s in outs):
-            tests.append(n)
-    if not tests:
-        return 'never tests `%s` for emptiness with an arm that leaves ' \
-               'the loop' % var
-    # every path read -> head passes one of the tests (before var is
-    # overwritten)
-    pth = g.exists_path(rn, lambda n: n is head,
-                        avoid=lambda n: n in tests)
-    if pth is not None:
-        return 'a path from the read back to the loop head skips the ' \
-               'emptiness test'
-    return True
-
-
-def leaves_loop(g, s, body, head):
-    """Every path from s ends outside the loop without re-entering it."""
-    if isinstance(s.ast, (ast.Raise, ast.Return, ast.Break)):
-        return True
-    if s not in body and s is not head:
-        return True
-    seen = set()
-    stack = [s]
-    while stack:
-        n = stack.pop()
-        if n in seen:
-            continue
-        seen.add(n)
-        if n is head:
-            return False
-        if n not in body:
-            continue
-        if isinstance(n.ast, (ast.Raise, ast.Return, ast.Break)):
-            continue
-        stack.extend(x for x, l in n.succ if l != 'exc')
-    return True
-
-
-def r2(report, db, cg, M):
+def r2(report, db, cg, S, M, type_ci, packet_ci):
     R = report.rule('R15.2', 'a packet is delivered only after its whole '
-                    'frame was read: the decode is dominated by the '
-                    'reassembly condition and nothing breaks out of it')
+                    'frame was read: the reassembly loop runs exactly while '
+                    'fewer bytes than the length prefix have been appended '
+                    'and is left in no other way')
     react = M.conn_method('_react')
     rp = M.method(M.reactor, 'read_packet')
-    # every _react(x): x comes from read_packet in the same function
     n = 0
-    for cs in cg.callers_of(react):
-        n += 1
-        fi = cs.caller
-        a = cs.node.args[0] if cs.node.args else None
-        ok = False
-        if isinstance(a, ast.Name):
-            srcs = []
-            for x in ast.walk(fi.node):
-                if isinstance(x, ast.Assign) and any(
-                        isinstance(t, ast.Name) and t.id == a.id
-                        for t in x.targets):
-                    srcs.append(x.value)
-            ok = bool(srcs) and all(
-                isinstance(v, ast.Call) and any(
-                    m.name == 'read_packet' for m, _, _ in
-                    cg.callee_funcs(fi, v)) for v in srcs)
-        if ok:
-            report.ok(R, '%s: _react(%s) <- read_packet' % (fi.qualname,
-                                                            a.id))
-        else:
-            report.violation(R, 'react-source:%s' % fi.qualname, fi.path,
-                             cs.node, fi.qualname, '_react is handed '
-                             'something other than the result of '
-                             'read_packet')
+    seen_ok = set()
+    for fi in sorted(set(cs.caller for cs in cg.callers_of(react)),
+                     key=lambda f: f.qualname):
+        for p in S.run(fi):
+            for e in p.flat(('call',)):
+                if not e.calls(react):
+                    continue
+                n += 1
+                a = [x for x in e.args if x[0] != 'sym'
+                     or x != ('sym', fi.params[0])]
+                src = a[-1] if a else None
+                okk = src is not None and src[0] == 'call' and any(
+                    ev.res == src and any(t.name == 'read_packet'
+                                          for t in (ev.targets or ()))
+                    for ev in p.flat(('call',)))
+                if okk:
+                    if (fi, 'ok') not in seen_ok:
+                        seen_ok.add((fi, 'ok'))
+                        report.ok(R, '%s: _react(x) <- read_packet'
+                                  % fi.qualname)
+                else:
+                    report.violation(R, 'react-source:%s' % fi.qualname,
+                                     fi.path, e.node, fi.qualname, '_react '
+                                     'is handed something other than the '
+                                     'result of read_packet')
     report.floor('_react call sites', n, 1)
-    # in read_packet: the reassembly loop
-    g = cfg_of(rp)
-    stream = rp.params[1]
-    loops = [x for x in ast.walk(rp.node) if isinstance(x, ast.While)]
-    if len(loops) != 1:
+    pb = db.get_class(BUFFER, 'PacketBuffer')
+    raw = set()
+    for f in db.funcs:
+        if f.module is rp.module:
+            raw |= set(id(x) for x in raw_reads(db, cg, f, type_ci,
+                                                packet_ci))
+    res = reassembly.analyse(S, rp, raw, pb)
+    if res['L'] is None or not res['loops']:
         raise AnalysisError('read_packet: expected one reassembly loop',
                             rp.node, rel(rp.path))
-    loop = loops[0]
-    t = loop.test
-    bufs = [x.targets[0].id for x in ast.walk(rp.node)
-            if isinstance(x, ast.Assign) and isinstance(x.targets[0],
-                                                        ast.Name)
-            and ast.unparse(x.value).endswith('PacketBuffer()')]
-    recv = shared.received_length_exprs(rp, bufs[0]) if len(bufs) == 1 \
-        else set()
-    length_ok = (isinstance(t, ast.Compare) and len(t.ops) == 1
-                 and isinstance(t.ops[0], ast.Lt)
-                 and ast.unparse(t.left) in recv
-                 and isinstance(t.comparators[0], ast.Name))
-    if not length_ok:
-        report.violation(R, 'reassembly-condition', rp.path, loop,
-                         rp.qualname, 'the reassembly loop runs while [%s]; '
-                         'it must run while the number of bytes received '
-                         'for this frame (len of the frame buffer, or a '
-                         'counter kept equal to it) is below the length '
-                         'prefix' % ast.unparse(t))
-        return
-    lname = t.comparators[0].id
-    # length is the frame's VarInt prefix
-    src = [x for x in ast.walk(rp.node) if isinstance(x, ast.Assign)
-           and any(isinstance(tt, ast.Name) and tt.id == lname
-                   for tt in x.targets)]
-    if len(src) == 1 and ast.unparse(src[0].value) == \
-            'VarInt.read(%s)' % stream:
-        report.ok(R, 'frame length = VarInt.read(stream)')
+    report.ok(R, 'frame length = VarInt.read(stream)')
+    for key, node, text in res['problems']:
+        if key in ('reassembly-condition', 'reassembly-break'):
+            report.violation(R, key, rp.path, node, rp.qualname, text)
+    if not any(k in ('reassembly-condition', 'reassembly-break')
+               for k, _, _ in res['problems']):
+        report.ok(R, 'the loop runs exactly while bytes appended < length '
+                  'prefix (%s) and is left only by that condition or an '
+                  'error' % '; '.join(sorted(set(res['facts']))[:2]))
+    # decode / delivery only after the loop
+    bad = None
+    ndec = 0
+    for p in S.run(rp):
+        if not p.returns or p.value == ('const', None):
+            continue
+        top = p.events
+        li = [i for i, e in enumerate(top) if e.kind == 'loop' and any(
+            id(x.node) in raw for q in e.paths for x in q.flat(('call',)))]
+        dec = [i for i, e in enumerate(top) if e.kind == 'call'
+               and e.method() == 'read' and any(
+                   t.name == 'read' and t.cls is not None
+                   and t.cls.name == 'Packet' for t in (e.targets or ()))]
+        ndec += len(dec)
+        if not li or any(i < li[0] for i in dec) or any(
+                n_[0] == 'left-by-break' and n_[1] is top[li[0]].node
+                for n_ in p.notes):
+            bad = p
+    if bad is not None:
+        report.violation(R, 'deliver-incomplete', rp.path, rp.node,
+                         rp.qualname, 'a packet is decoded or returned on a '
+                         'path that has not passed the frame-complete '
+                         'condition [%s]' % bad.cond_text()[:200])
+    elif ndec:
+        report.ok(R, 'decode and return only after the reassembly loop was '
+                  'exhausted')
     else:
-        report.violation(R, 'frame-length', rp.path, loop, rp.qualname,
-                         'the reassembly bound is not the VarInt length '
-                         'prefix of the frame')
-    head = [x for x in g.nodes if x.kind == 'test' and x.note is loop][0]
-    body = set(g.loop_nodes(loop))
-    brk = [x for x in body if isinstance(x.ast, (ast.Break, ast.Return))]
-    for b in brk:
-        report.violation(R, 'reassembly-break', rp.path, b.ast, rp.qualname,
-                         'the reassembly loop is left by %s before the '
-                         'frame is complete: a partial frame would be '
-                         'decoded and delivered' % type(b.ast).__name__.lower())
-    decode = [x for x in g.reachable_nodes() if x.ast is not None and any(
-        isinstance(c.func, ast.Attribute) and c.func.attr == 'read'
-        and any(m.name == 'read' and m.cls is not None and
-                m.cls.name == 'Packet' for m, _, _ in cg.callee_funcs(rp, c))
-        for c in x.calls())]
-    rets = [x for x in g.reachable_nodes() if isinstance(x.ast, ast.Return)
-            and x.ast.value is not None and not (
-                isinstance(x.ast.value, ast.Constant)
-                and x.ast.value.value is None)]
-    if not decode or not rets:
         raise AnalysisError('read_packet: decode / return not found',
                             rp.node, rel(rp.path))
-    for x in decode + rets:
-        # reachable only through the loop head's false edge
-        ok = g.dominates(head, x) and g.exists_path(
-            head, lambda n: n is x, start_labels=('true',),
-            avoid=lambda n: n is head) is None
-        if ok:
-            report.ok(R, 'line %d only after len(buffer) >= length'
-                      % x.lineno)
-        else:
-            report.violation(R, 'deliver-incomplete:%d' % x.lineno, rp.path,
-                             x.ast, rp.qualname, 'the packet is decoded or '
-                             'returned on a path that has not passed the '
-                             'frame-complete condition')
 
 
 def r3(report, db, cg, M, type_ci, packet_ci):
